@@ -40,7 +40,8 @@ ASSUMPTIONS = ['scheduling points are line events in frames of <repo>/pydbml (py
 
 
 def bounds(tier):
-    return {'history_length_full_alphabet': 2, 'history_length_reduced_alphabet': 3 if tier == 'quick' else 4, 'reduced_alphabet': len(reduced(tier)), 'preemptions': 1,
+    return {'two_preemption_pairs_call_granularity': 0 if tier == 'quick' else len(SCHED2_PAIRS), 'three_thread_triples': 0 if tier == 'quick' else len(SCHED3_TRIPLES),
+            'history_length_full_alphabet': 2, 'history_length_reduced_alphabet': 3 if tier == 'quick' else 4, 'reduced_alphabet': len(reduced(tier)), 'preemptions': 1,
             'threads': 2, 'schedule_pairs': len(sched_pairs(tier)), 'calls': len(CALLS)}
 
 
@@ -304,6 +305,10 @@ def sched_pairs(tier):
     return pairs
 
 
+SCHED2_PAIRS = [(('table', 'default'), ('props', 'props')), (('props', 'props'), ('semantic', 'default'))]
+SCHED3_TRIPLES = [(('table', 'default'), ('props', 'props'), ('semantic', 'default')), (('enum', 'default'), ('enum', 'default'), ('syntax-last', 'props'))]
+
+
 def body_for(call):
     def f():
         out, db = do_call(call)
@@ -311,12 +316,12 @@ def body_for(call):
     return f
 
 
-def run_schedule(p, pair, first, switches, cold, case):
+def run_schedule(p, pair, first, switches, cold, case, granularity='line'):
     if cold:
         heap.cold_reset()
-    bodies = [body_for(pair[0]), body_for(pair[1])]
+    bodies = [body_for(c) for c in pair]
     try:
-        results, counts, log = sched.run(bodies, first=first, switches=switches, prefix=os.path.join(REPO, 'pydbml') + os.sep)
+        results, counts, log = sched.run(bodies, first=first, switches=switches, prefix=os.path.join(REPO, 'pydbml') + os.sep, granularity=granularity)
     except RuntimeError as e:
         p['violations'].append(violation(PID, 'schedule-hangs', dict(case, first=first, switches=[list(s) for s in switches]), detail=str(e)))
         return None
@@ -362,6 +367,55 @@ def explore_pair(p, pair, cold, tier, chunk=0, nchunks=1):
     p['outcomes'][f"sched/{'cold' if cold else 'warm'}/points{(n0 + n1) // 100 * 100}+"] += 1
     p['extra']['scheduling_points_of_explored_pairs'] = (n0 + n1) if chunk == 0 else 0
     check_census(p, case, f'after the schedules of {pair}')
+
+
+def explore_two_preemptions(p, pair, chunk, nchunks):
+    """2 threads, scheduling points at every entry into a pydbml function: all schedules with two preemptions
+    (thread t preempted at its k1-th point, the other preempted at its k2-th point, t runs to completion, the other finishes)"""
+    case = {'mode': 'sched2', 'pair': [list(pair[0]), list(pair[1])], 'cold': False, 'granularity': 'call'}
+    c = run_schedule(p, pair, 0, (), False, case, 'call')
+    if c is None:
+        return
+    n0, n1 = c
+    idx = 0
+    for t in (0, 1):
+        nt, no = (n0, n1) if t == 0 else (n1, n0)
+        for k1 in range(nt):
+            for k2 in range(no):
+                idx += 1
+                if idx % nchunks != chunk:
+                    continue
+                run_schedule(p, pair, t, ((t, k1), (1 - t, k2)), False, case, 'call')
+                p['states'] += 1
+                p['traces'] += 1
+                p['nontrivial'].add(digest([case, t, k1, k2]))
+    p['outcomes'][f'sched2/call-points{n0 + n1}'] += 1
+    p['extra']['two_preemption_call_points'] = (n0 + n1) if chunk == 0 else 0
+    check_census(p, case, f'after the two-preemption schedules of {pair}')
+
+
+def explore_three_threads(p, triple, chunk, nchunks):
+    """3 threads, one preemption at line granularity: thread t is preempted at its k-th point, the other two run to completion in
+    order, t resumes; for every t and k, plus the three unpreempted orders"""
+    case = {'mode': 'sched3', 'pair': [list(c) for c in triple], 'cold': False}
+    counts = None
+    for first in (0, 1, 2):
+        c = run_schedule(p, triple, first, (), False, case)
+        if c is None:
+            return
+        counts = counts or c
+    idx = 0
+    for t in (0, 1, 2):
+        for k in range(counts[t]):
+            idx += 1
+            if idx % nchunks != chunk:
+                continue
+            run_schedule(p, triple, t, ((t, k),), False, case)
+            p['states'] += 1
+            p['traces'] += 1
+            p['nontrivial'].add(digest([case, t, k]))
+    p['outcomes']['sched3/explored'] += 1
+    check_census(p, case, f'after the three-thread schedules of {triple}')
 
 
 # ------------------------------------------------------------------------------------------------
@@ -421,6 +475,13 @@ def units(tier, seed):
                 us.append(('sched', (k, cold, ch, NCH), tier))
     for k in range(0, len(CALLS), 13):
         us.append(('fresh', k, tier))
+    if tier != 'quick':
+        for pi in range(len(SCHED2_PAIRS)):
+            for ch in range(16):
+                us.append(('sched2', (pi, ch, 16), tier))
+        for ti in range(len(SCHED3_TRIPLES)):
+            for ch in range(8):
+                us.append(('sched3', (ti, ch, 8), tier))
     return us
 
 
@@ -457,6 +518,14 @@ def work(unit):
         pair = sched_pairs(tier)[pi]
         explore_pair(p, pair, cold, tier, ch, nch)
         p['samples'].append({'mode': 'sched', 'pair': [list(pair[0]), list(pair[1])], 'cold_start': cold, 'preemptions': 1})
+    elif mode == 'sched2':
+        pi, ch, nch = k
+        explore_two_preemptions(p, SCHED2_PAIRS[pi], ch, nch)
+        p['samples'].append({'mode': 'sched2', 'pair': [list(c) for c in SCHED2_PAIRS[pi]], 'preemptions': 2, 'granularity': 'call'})
+    elif mode == 'sched3':
+        ti, ch, nch = k
+        explore_three_threads(p, SCHED3_TRIPLES[ti], ch, nch)
+        p['samples'].append({'mode': 'sched3', 'threads': [list(c) for c in SCHED3_TRIPLES[ti]], 'preemptions': 1})
     else:
         check_fresh(p, CALLS[k:k + 13])
         p['samples'].append({'mode': 'fresh', 'calls': [list(c) for c in CALLS[k:k + 2]]})
@@ -495,6 +564,11 @@ def replay(case):
             run_schedule(p, pair, case['first'], tuple(tuple(s) for s in case['switches']), case['cold'], {k: case[k] for k in ('mode', 'pair', 'cold')})
         else:
             explore_pair(p, pair, case['cold'], 'quick')
+    elif case['mode'] in ('sched2', 'sched3'):
+        calls = tuple(tuple(c) for c in case['pair'])
+        if 'switches' in case:
+            run_schedule(p, calls, case['first'], tuple(tuple(s) for s in case['switches']), False, {k: case[k] for k in ('mode', 'pair', 'cold')},
+                         case.get('granularity', 'line'))
     elif case['mode'] == 'fresh':
         check_fresh(p, [tuple(case['call'])])
     else:
